@@ -237,3 +237,26 @@ def run(eng, ctx):
             a = e.term[3][1] if len(e.term[3]) > 1 else None
             okd = a is not None and a[0] == "proj" and a[1] == ("param", f.params[1])
             ctx.check(okd, "C04.D3", f.qualname, norm(e.node)[:70], expected="recursion descends into the group's body dict (a strict sub-term of the literal definition)", found=show(a)[:60] if a else "-", **eng.loc(f, e.node))
+    # every other call from a member of the cycle to a member of the cycle (a routine calling itself, the group routine calling the optional one, ...)
+    # must also hand down a strict part of the caller's own definition argument
+    cyc_names = {q.rsplit(".", 1)[1]: q for q in eng.decoder_cycle}
+    for q in sorted(eng.decoder_cycle - set(eng.cycle_helpers)):
+        f = eng.repo.func(q)
+        if q == d.qualname:
+            continue  # the dispatcher selects the definition by key (pdict[anam]): checked by C03-D8
+        se = eng.symeval(q)
+        params = {("param", p_) for p_ in f.params}
+
+        def strict_part(t, depth=0, params=params):
+            if t in params:
+                return depth > 0
+            if t[0] in ("proj", "idx", "elem") and isinstance(t[1], tuple):
+                return strict_part(t[1], depth + 1)
+            if t[0] == "call" and t[2][0] == "attr" and t[2][2] in ("items", "values") and not t[3]:
+                return strict_part(t[2][1], depth)
+            return False
+
+        for e in se.effects:
+            if e.kind == "call" and e.term[2][0] == "attr" and e.term[2][1] == ("self",) and e.term[2][2] in cyc_names and e.term[2][2] != d.name:
+                okd = any(strict_part(a) for a in e.term[3])
+                ctx.check(okd, "C04.D3", q, norm(e.node)[:70], expected="a call back into the decoder cycle passes a strict part of the caller's definition (else the recursion need not end)", found=", ".join(show(a)[:30] for a in e.term[3]), **eng.loc(f, e.node))
